@@ -60,7 +60,7 @@ def run(tier):
     cov = {"models": {}, "emission": []}
 
     # 1. model checking + emission (cfg, how many cases to take; None = all)
-    plan = [("Config_single.cfg", None), ("Config_opt.cfg", None if thorough else 20), ("Config_matrix.cfg", None if thorough else 44)]
+    plan = [("Config_single.cfg", None), ("Config_opt.cfg", None if thorough else 36), ("Config_matrix.cfg", None if thorough else 44)]
     if thorough:
         plan.append(("Config_double.cfg", 700))
 
